@@ -10,6 +10,7 @@ the quick tier's `-DOSMIUM_VERIF_FLEXMEM_MIN_DENSE_ENTRIES=200` build and the re
 (`Generated.C12.flexMinDenseEntries`) are covered by one and the same statement.
 -/
 import Osmium.Lemmas.IndexMap
+import Osmium.Lemmas.NodeLoc
 import Osmium.Generated.C12Constants
 import Osmium.Generated.Src
 import Osmium.Lemmas.CxxSem
@@ -188,19 +189,90 @@ theorem nlfw_invariant_nodes {Ip In : Impl V} {e : V} (Lp : Laws Ip e) (Ln : Law
     intro hok
     exact (ih (NodesOk.suffix (l1 := [p]) hok)).node p.1 p.2 hok
 
-/-- Ways passed through the handler receive for every node ref the location of the node with
-    that (positive or negative) id among the nodes that arrived before the way — regardless of
-    arrival order, with ways and nodes interleaved arbitrarily — and `not_found` is thrown
-    exactly when some ref has no (fully defined) location and errors are not ignored. -/
+/-- "the location of the node with that id": `specSigned ns r = some v` iff the node `(r, v)` arrived
+    (positive, negative or 0 — the signed id as a whole), `none` iff no node with id `r` arrived. -/
+theorem nlfw_spec_is_node_with_that_id (ns : List (Int × V)) (hnd : (ns.map (·.1)).Nodup) (r : Int) :
+    (∀ v, specSigned ns r = some v ↔ (r, v) ∈ ns) ∧ (specSigned ns r = none ↔ r ∉ ns.map (·.1)) :=
+  ⟨fun v => specSigned_iff_mem hnd r v, specSigned_eq_none_iff r⟩
+
+/-- ONE `way()` call, in the property's own words.  In every handler state reachable by nodes with
+    distinct ids in ANY order (`NInv`, see `nlfw_invariant_nodes`), over ANY two index implementations
+    that satisfy the laws, for ANY node refs carrying ANY locations (undefined, equal to the index's,
+    stale, foreign, invalid, half-defined):
+    (1) the ref ids are unchanged;
+    (2) every ref ends with the location of the node with that id, or the undefined location if no
+        such node arrived;
+    (3) `not_found` is thrown iff errors are not ignored and some ref ends without a fully defined
+        location;
+    (4) nothing depends on what the refs carried: any way with the same ref ids gives the same result. -/
+theorem nlfw_way_overwrites_carried_locations {Ip In : Impl V} {e : V} (Lp : Laws Ip e) (Ln : Laws In e)
+    (ok : V → Bool) (ign : Bool) (s : NLFW Ip In) (ns : List (Int × V)) (hi : NInv Lp Ln ign s ns)
+    (hok : NodesOk e ns) (refs : List (NRef V)) :
+    refIds (s.way ok refs).2.1 = refIds refs ∧
+    (s.way ok refs).2.1 = refs.map (fun p => (p.1, (specSigned ns p.1).getD e)) ∧
+    ((s.way ok refs).2.2 = true ↔ ign = false ∧ ∃ p ∈ refs, ok ((specSigned ns p.1).getD e) = false) ∧
+    (∀ refs' : List (NRef V), refIds refs' = refIds refs → (s.way ok refs').2 = (s.way ok refs).2) := by
+  have hw := (hi.way hok ok refs).2
+  refine ⟨?_, ?_, ?_, ?_⟩
+  · rw [hw, refIds_specWay]
+  · rw [hw]; simp [specWay, refIds, specLoc, Function.comp_def]
+  · rw [hw]
+    simp only [specWay, refIds, specLoc, List.map_map, List.any_map, Bool.and_eq_true, Bool.not_eq_true',
+      List.any_eq_true, Function.comp_def]
+  · intro refs' hids
+    rw [hw, (hi.way hok ok refs').2, hids]
+
+/-- The same way object passed through a handler twice (the second handler state `s'` being ANY state
+    with the invariant: the same handler after more nodes, or another handler over other indexes with
+    moved nodes): the second pass gives exactly what a pass of the original way would give — the
+    locations written by the first pass leave no trace. -/
+theorem nlfw_way_twice {Ip In Ip' In' : Impl V} {e : V} (Lp : Laws Ip' e) (Ln : Laws In' e)
+    (ok : V → Bool) (ign : Bool) (s : NLFW Ip In) (s' : NLFW Ip' In') (ns' : List (Int × V))
+    (hi : NInv Lp Ln ign s' ns') (hok : NodesOk e ns') (refs : List (NRef V)) :
+    (s'.way ok (s.way ok refs).2.1).2 = (s'.way ok refs).2 := by
+  apply (nlfw_way_overwrites_carried_locations Lp Ln ok ign s' ns' hi hok refs).2.2.2
+  simp [NLFW.way, NLFW.wayLoop_eq, refIds, Function.comp_def]
+
+/-- Whole programs: nodes and ways interleaved arbitrarily, nodes in ANY arrival order, new way
+    objects carrying ANY locations (`way`), earlier way objects passed through again as the handler
+    left them (`again`), `ignore_errors()` at any point, the handler and its indexes replaced by new
+    ones with the way objects surviving (`fresh`).  The output of every `way()` call is what `specRun`
+    says — and `specRun` knows of a way object ONLY ITS REF IDS, and of the nodes only the map
+    id ↦ location of the current handler life. -/
 theorem nlfw_ways_get_locations {Ip In : Impl V} {e : V} (Lp : Laws Ip e) (Ln : Laws In e)
-    (ok : V → Bool) (ign : Bool) (evs : List (Ev V)) (hok : NodesOk e (nodesOf evs)) :
-    (NLFW.run ok (NLFW.init Ip In ign) evs).2 = specRun ok e ign [] evs := by
-  apply NInv.run ok evs _ _ (NInv.init Lp Ln ign)
-  obtain ⟨h1, h2, h3⟩ := hok
-  refine ⟨?_, ?_, ?_⟩
-  · simpa using (List.Perm.nodup_iff ((List.reverse_perm (nodesOf evs)).map _)).2 h1
-  · intro p hp; exact h2 p (by simpa using hp)
-  · intro p hp; exact h3 p (by simpa using hp)
+    (ok : V → Bool) (ign : Bool) (evs : List (Ev V)) (hok : EvsOk e [] evs) :
+    (NLFW.run ok (NLFW.init Ip In ign) { h := NLFW.init Ip In ign } evs).2 = specRun ok e ign [] [] evs :=
+  NInv.run ok ign evs { h := NLFW.init Ip In ign } ign [] (NInv.init Lp Ln ign) hok
+
+/-- regardless of the order in which the nodes arrived: two handlers fed the same nodes in different
+    orders (any permutation) answer every way identically -/
+theorem nlfw_arrival_order_irrelevant {Ip In : Impl V} {e : V} (Lp : Laws Ip e) (Ln : Laws In e)
+    (ok : V → Bool) (ign : Bool) (ns ns' : List (Int × V)) (hp : ns.Perm ns') (hok : NodesOk e ns)
+    (refs refs' : List (NRef V)) (hids : refIds refs = refIds refs') :
+    ((ns.foldr (fun p s => s.node p.1 p.2) (NLFW.init Ip In ign)).way ok refs).2 =
+    ((ns'.foldr (fun p s => s.node p.1 p.2) (NLFW.init Ip In ign)).way ok refs').2 := by
+  have hok' : NodesOk e ns' :=
+    ⟨(hp.map _).nodup_iff.1 hok.1, fun p h => hok.2.1 p (hp.mem_iff.2 h), fun p h => hok.2.2 p (hp.mem_iff.2 h)⟩
+  rw [((nlfw_invariant_nodes Lp Ln ign ns hok).way hok ok refs).2,
+    ((nlfw_invariant_nodes Lp Ln ign ns' hok').way hok' ok refs').2, hids]
+  exact specWay_perm hok hp ok ign _
+
+/-- `clear()` (outside the property: "makes the handler unusable"): on every implementation that
+    answers "not found" after `clear()` — all nine do, `*_clearLaw` — a way passed through afterwards
+    ends with undefined locations in every ref, whatever the refs carried. -/
+theorem nlfw_clear_then_ways_find_nothing {Ip In : Impl V} {e : V} (hp : ClearLaw Ip e) (hn : ClearLaw In e)
+    (ok : V → Bool) (s : NLFW Ip In) (refs : List (NRef V)) :
+    (s.clear.way ok refs).2 = (refs.map (fun r => (r.1, e)), !s.ignoreErrors && (!refs.isEmpty && !ok e)) :=
+  NLFW.clear_way hp hn ok s refs
+
+/-- … and all registered implementations (and `Dummy`) satisfy that law, for all parameters -/
+theorem all_impls_clear_law (e vinit : V) (gd : Grow V) (gs : Grow (Nat × V)) (inc bs : Nat) (pe : Nat × V)
+    (P : FlexParams) :
+    ClearLaw (denseImpl vinit e) e ∧ ClearLaw (mdenseImpl gd inc e) e ∧ ClearLaw (sparseImpl bs e) e ∧
+    ClearLaw (msparseImpl gs inc bs e pe) e ∧ ClearLaw (stdMapImpl e) e ∧ ClearLaw (flexImpl P e) e ∧
+    ClearLaw (dummyImpl e) e :=
+  ⟨dense_clearLaw vinit e, mdense_clearLaw gd inc e, sparse_clearLaw bs e, msparse_clearLaw gs inc bs e pe,
+   stdmap_clearLaw e, flex_clearLaw P e, dummy_clearLaw e⟩
 
 /-! ### the constants of the current source satisfy the side conditions -/
 
@@ -231,13 +303,26 @@ example : (sparseImpl 4 (0 : Int)).get ((sparseImpl 4 0).sort ((sparseImpl 4 0).
 example : ((flexImpl ⟨2, 3, 3⟩ (0 : Int)).build [(1, 11), (2, 12), (3, 13)]).dense = true := by decide
 example : (flexImpl ⟨2, 3, 3⟩ (0 : Int)).get ((flexImpl ⟨2, 3, 3⟩ 0).build [(1, 11), (2, 12), (3, 13), (9, 19)]) 9 = some 19 := by decide
 
--- a stream that needs the sort step: nodes 5, -3, 2, a way, a late node 1, another way
+-- a stream that needs the sort step: nodes 5, -3, 2, a way whose refs carry stale / foreign / half-defined
+-- locations (99, 98, 0 = undefined, 97), a late node 1, the FIRST way object again, a new way
 example : (NLFW.run (fun (l : Int) => l != 0) (NLFW.init (sparseImpl 4 (0 : Int)) (sparseImpl 4 0) false)
-    [.node 5 50, .node (-3) 30, .node 2 20, .way [2, -3, 5, 7], .node 1 10, .way [1, 5]]).2 =
-    [([20, 30, 50, 0], true), ([10, 50], false)] :=
-  (nlfw_ways_get_locations (sparseLaws 4 0) (sparseLaws 4 0) _ false _
-    ⟨by decide, by decide, by intro p hp; simp [nodesOf] at hp; rcases hp with rfl | rfl | rfl | rfl <;> simp [idMax]⟩).trans
-    (by decide)
+    { h := NLFW.init (sparseImpl 4 (0 : Int)) (sparseImpl 4 0) false }
+    [.node 5 50, .node (-3) 30, .node 2 20, .way [(2, 99), (-3, 98), (5, 0), (7, 97)], .node 1 10, .again 0,
+     .way [(1, 50), (5, 50)]]).2 =
+    [([(2, 20), (-3, 30), (5, 50), (7, 0)], true), ([(2, 20), (-3, 30), (5, 50), (7, 0)], true),
+     ([(1, 10), (5, 50)], false)] := by
+  have hok : EvsOk (0 : Int) [] [.node 5 50, .node (-3) 30, .node 2 20, .way [(2, 99), (-3, 98), (5, 0), (7, 97)],
+      .node 1 10, .again 0, .way [(1, 50), (5, 50)]] := by
+    simp only [EvsOk]
+    refine ⟨by decide, by decide, ?_⟩
+    intro p hp; simp at hp; rcases hp with rfl | rfl | rfl | rfl <;> simp [idMax]
+  exact (nlfw_ways_get_locations (sparseLaws 4 0) (sparseLaws 4 0) _ false _ hok).trans (by decide)
+
+-- the domain predicate of streams is satisfiable across a `fresh` (the same ids again, moved)
+example : EvsOk (0 : Int) [] [.node 5 50, .way [(5, 1)], .ignoreErrors, .fresh, .node 5 51, .again 0] := by
+  simp only [EvsOk]
+  refine ⟨⟨by decide, by decide, ?_⟩, ⟨by decide, by decide, ?_⟩⟩ <;>
+    (intro p hp; simp at hp; rcases hp with rfl; simp [idMax])
 
 -- GrowOk is satisfiable: Linux hands out zero pages
 example : GrowOk (fun (a : Array Int) n => a ++ Array.replicate (n - a.size) 7) :=
@@ -292,6 +377,94 @@ theorem src_tie_flex_switch (s : Src.FlexMem.FlexMem_u64_Location) (ht : Src.Fle
 
 example : Src.FlexMem.FlexMem_u64_Location.typed ⟨⟨⟩, ⟨16777215⟩, ⟨0⟩, 40000000, false⟩ = true ∧
     (16777215 : Int) * 3 < 2 ^ 64 := by decide
+
+
+/-! `NodeLocationsForWays` (instantiated over the abstract `Map<uint64_t, Location>`, as in harness/c12.cpp):
+    `node()`, `way()` and `get_node_location()` call virtual index methods and `way()` ranges over the way's node
+    refs — outside the translator's subset as whole functions.  Every CONDITION that steers them, the local `id`
+    and `ignore_errors()` are translated; the ties state that the model's steps are exactly those conditions
+    plugged into the statement sequence of the source. -/
+
+/-- the handler object of the source as the model state over index states `p`, `n` -/
+def absNLFW {Ip In : Impl Loc} (self : Src.NodeLocationsForWays.NodeLocationsForWays_Location_Location)
+    (p : Ip.M) (n : In.M) : NLFW Ip In :=
+  { pos := p, neg := n, lastId := self.m_last_id.toNat, ignoreErrors := self.m_ignore_errors,
+    mustSort := self.m_must_sort }
+
+/-- `node()`: `if (node.positive_id() < m_last_id) m_must_sort = true; m_last_id = node.positive_id();
+    const auto id = node.id(); if (id >= 0) pos.set(id, loc) else neg.set(-id, loc)` — the model's `NLFW.node`
+    is this sequence with the translated conditions, for every node id but INT64_MIN (`std::abs` undefined). -/
+theorem src_tie_nlfw_node {Ip In : Impl Loc} (self : Src.NodeLocationsForWays.NodeLocationsForWays_Location_Location)
+    (node : Src.Node.Node) (p : Ip.M) (n : In.M) (loc : Loc)
+    (ht : Src.NodeLocationsForWays.nlfw_node_cond_out_of_order_typed self node = true)
+    (hd : Src.NodeLocationsForWays.nlfw_node_cond_out_of_order_defined self node = true) :
+    (absNLFW self p n).node (Src.NodeLocationsForWays.nlfw_node_id node) loc =
+      { pos := if Src.NodeLocationsForWays.nlfw_node_cond_positive (Src.NodeLocationsForWays.nlfw_node_id node)
+                 then Ip.set p (Src.NodeLocationsForWays.nlfw_node_id node).toNat loc else p,
+        neg := if Src.NodeLocationsForWays.nlfw_node_cond_positive (Src.NodeLocationsForWays.nlfw_node_id node)
+                 then n else In.set n (-(Src.NodeLocationsForWays.nlfw_node_id node)).toNat loc,
+        lastId := (Src.Object.OSMObject.positive_id node.toBase_OSMObject).toNat,
+        ignoreErrors := self.m_ignore_errors,
+        mustSort := if Src.NodeLocationsForWays.nlfw_node_cond_out_of_order self node then true else self.m_must_sort } := by
+  simp only [Src.NodeLocationsForWays.nlfw_node_cond_out_of_order_typed,
+    Src.NodeLocationsForWays.NodeLocationsForWays_Location_Location.typed, Src.Node.Node.typed,
+    Src.Object.OSMObject.typed, Bool.and_eq_true, inU_iff, inS64_iff] at ht
+  simp only [Src.NodeLocationsForWays.nlfw_node_cond_out_of_order_defined, Src.Object.OSMObject.positive_id_defined,
+    inS64_iff] at hd
+  have hw : wrapU 64 ((Int.natAbs node.toBase_OSMObject.m_id : Nat) : Int) = ((Int.natAbs node.toBase_OSMObject.m_id : Nat) : Int) := by
+    apply wrapU_eq <;> omega
+  have hl : ((self.m_last_id.toNat : Nat) : Int) = self.m_last_id := by omega
+  by_cases hlt : (Int.natAbs node.toBase_OSMObject.m_id) < self.m_last_id.toNat <;>
+    by_cases hge : node.toBase_OSMObject.m_id ≥ 0 <;>
+    simp [NLFW.node, absNLFW, Src.NodeLocationsForWays.nlfw_node_id, Src.Object.OSMObject.id,
+      Src.NodeLocationsForWays.nlfw_node_cond_positive, Src.NodeLocationsForWays.nlfw_node_cond_out_of_order,
+      Src.Object.OSMObject.positive_id, hw, hlt, hge] <;> omega
+
+/-- `get_node_location(id)`: the condition that picks the positive / negative index is the model's `id ≥ 0` -/
+theorem src_tie_nlfw_get_node_location {Ip In : Impl Loc} (s : NLFW Ip In) (id : Int) :
+    s.getNodeLocation id =
+      if Src.NodeLocationsForWays.nlfw_get_cond_positive id then Ip.getNoexcept s.pos id.toNat
+      else In.getNoexcept s.neg (-id).toNat := by
+  by_cases h : id ≥ 0 <;> simp [NLFW.getNodeLocation, Src.NodeLocationsForWays.nlfw_get_cond_positive, h] <;> omega
+
+/-- `way()`: (a) the sort step runs iff the translated `m_must_sort` condition holds; (b) `Location::operator bool`,
+    which the loop's `if (!node_ref.location()) error = true` applies to the ref's location after `set_location`, is the
+    model's `Loc.ok` (the `if` itself sits in the range-for and goes through the non-const `NodeRef::location()`, whose
+    generated name clashes with the const overload: not extracted); (c) `not_found` is thrown iff the translated `!m_ignore_errors && error`. -/
+theorem src_tie_nlfw_way {Ip In : Impl Loc} (self : Src.NodeLocationsForWays.NodeLocationsForWays_Location_Location)
+    (p : Ip.M) (n : In.M) (l : Src.Location.Location) (refs : List (NRef Loc)) :
+    ((absNLFW self p n : NLFW Ip In).prepare =
+      if Src.NodeLocationsForWays.nlfw_way_cond_must_sort self
+      then { pos := Ip.sort p, neg := In.sort n, lastId := idMax, ignoreErrors := self.m_ignore_errors, mustSort := false }
+      else absNLFW self p n) ∧
+    Src.Location.Location.op_to_bool l = Loc.ok ⟨l.m_x, l.m_y⟩ ∧
+    ((absNLFW self p n : NLFW Ip In).way Loc.ok refs).2.2 =
+      Src.NodeLocationsForWays.nlfw_way_cond_throw self
+        (((absNLFW self p n : NLFW Ip In).prepare.wayLoop Loc.ok refs false).2) := by
+  have eu : wrapS 32 Src.Location.Location.undefined_coordinate = undefCoord := by decide
+  refine ⟨?_, ?_, ?_⟩
+  · cases hms : self.m_must_sort <;>
+      simp [NLFW.prepare, absNLFW, Src.NodeLocationsForWays.nlfw_way_cond_must_sort, hms]
+  · simp only [Src.Location.Location.op_to_bool, eu, Loc.ok]
+    by_cases hx : l.m_x = undefCoord <;> by_cases hy : l.m_y = undefCoord <;> simp [CxxSem.ne, hx, hy]
+  · have hi : (absNLFW self p n : NLFW Ip In).prepare.ignoreErrors = self.m_ignore_errors := by
+      unfold NLFW.prepare absNLFW; split <;> rfl
+    simp only [NLFW.way, Src.NodeLocationsForWays.nlfw_way_cond_throw, hi]
+
+/-- `ignore_errors()` = the model's `setIgnoreErrors` -/
+theorem src_tie_nlfw_ignore_errors {Ip In : Impl Loc}
+    (self : Src.NodeLocationsForWays.NodeLocationsForWays_Location_Location) (p : Ip.M) (n : In.M) :
+    ∃ self', Src.NodeLocationsForWays.NodeLocationsForWays_Location_Location.ignore_errors self = .normal self' () ∧
+      (absNLFW self' p n : NLFW Ip In) = (absNLFW self p n).setIgnoreErrors :=
+  ⟨{ self with m_ignore_errors := true }, by simp [Src.NodeLocationsForWays.NodeLocationsForWays_Location_Location.ignore_errors],
+   by simp [absNLFW, NLFW.setIgnoreErrors]⟩
+
+example : Src.NodeLocationsForWays.nlfw_node_cond_out_of_order_typed ⟨⟨⟩, ⟨⟩, ⟨⟩, 7, false, false⟩
+      ⟨⟨⟨⟨⟨⟩, 0, 0, 0, 0, 0⟩⟩, -5, false, 1, ⟨0⟩, 0, 0⟩, ⟨1, 2⟩⟩ = true ∧
+    Src.NodeLocationsForWays.nlfw_node_cond_out_of_order_defined ⟨⟨⟩, ⟨⟩, ⟨⟩, 7, false, false⟩
+      ⟨⟨⟨⟨⟨⟩, 0, 0, 0, 0, 0⟩⟩, -5, false, 1, ⟨0⟩, 0, 0⟩, ⟨1, 2⟩⟩ = true ∧
+    Src.NodeLocationsForWays.nlfw_node_cond_out_of_order ⟨⟨⟩, ⟨⟩, ⟨⟩, 7, false, false⟩
+      ⟨⟨⟨⟨⟨⟩, 0, 0, 0, 0, 0⟩⟩, -5, false, 1, ⟨0⟩, 0, 0⟩, ⟨1, 2⟩⟩ = true := by decide
 
 end SrcTies
 
